@@ -2,7 +2,17 @@
 P = {'id': 'C18',
  'level': 'proof',
  'theorems': ['conservation',
-              'exactly_once'],
+              'exactly_once',
+              'priority_order',
+              'no_parked_task',
+              'progress',
+              'drains',
+              'parked_task_refuted',
+              'executor_parks_refuted',
+              'order_preserved',
+              'error_surfaces',
+              'reduce_sequential',
+              'collector_order'],
  'trusted': ['modelled (M+S): src/concurrency/work_stealing.rs WorkStealingQueue::{push_local, pop_local, steal, balance, len} and '
              'WorkStealingExecutor::{submit, find_task, one worker_loop iteration, total_queued, is_idle}, every queue operation one atomic step',
              'spec-only cells (direct oracle, no mechanism model): the running executor on tokio runtimes, FiberPool::spawn/for_each, '
